@@ -246,7 +246,9 @@ bool updateUnitMultiplier(const UnitsPtr &units, int direction, double &multipli
         if (units->isResolved()) {
             auto importSource = units->importSource();
             auto importedUnits = importSource->model()->units(units->importReference());
-            updateUnitMultiplier(importedUnits, 1, localMultiplier, unitsPath);
+            if (!updateUnitMultiplier(importedUnits, 1, localMultiplier, unitsPath)) {
+                return false;
+            }
             multiplier += localMultiplier * direction;
         } else {
             return false;
